@@ -211,6 +211,7 @@ func c11beh(args []string) error {
 			Iv   int    `json:"iv"`
 			Len  int    `json:"len"`
 			Cap  bool   `json:"cap"`
+			N    int    `json:"n"`
 		}
 		if err := json.Unmarshal(sc.Bytes(), &ops); err != nil {
 			return err
@@ -222,6 +223,13 @@ func c11beh(args []string) error {
 			case "setiv":
 				err := sm4.SetIV(c11IV(o.Iv))
 				ev.emit(map[string]interface{}{"ev": "setiv", "iv": o.Iv, "err": err != nil})
+			case "setiv_bad":
+				bad := make([]byte, o.N)
+				for i := range bad {
+					bad[i] = byte(0xe0 + i) // unlike every IV of the catalogue
+				}
+				err := sm4.SetIV(bad)
+				ev.emit(map[string]interface{}{"ev": "setiv_bad", "n": o.N, "err": err != nil})
 			case "enc":
 				out, e, ii, si := c11Enc(o.Mode, c11Pt(0, o.Len), o.Cap)
 				ev.emit(map[string]interface{}{"ev": "enc", "mode": o.Mode, "len": o.Len, "cap": o.Cap, "out": ints(out),
